@@ -5,6 +5,7 @@ import (
 	"flag"
 	"fmt"
 	"os"
+	"runtime/pprof"
 	"sort"
 	"strings"
 	"time"
@@ -55,10 +56,16 @@ func cmdJob(args []string) int {
 	timeout := fs.Duration("timeout", 10*time.Minute, "")
 	replay := fs.Bool("replay", false, "replay findings natively")
 	verbose := fs.Bool("v", false, "")
+	cpuprof := fs.String("cpuprofile", "", "")
 	params := kvFlag{}
 	fs.Var(params, "p", "param k=v")
 	fs.Parse(args)
 
+	if *cpuprof != "" {
+		f, _ := os.Create(*cpuprof)
+		pprof.StartCPUProfile(f)
+		defer pprof.StopCPUProfile()
+	}
 	st, err := runner.Stage(*verif, *repo)
 	if err != nil {
 		fmt.Fprintln(os.Stderr, err)
